@@ -72,8 +72,10 @@ def resolve_text(text):
 # ----------------------------------------------------------------------------------------------
 # C05: Print -> Parse -> Verify -> Reprint -> Reparse -> Canon -> Resolve [-> Compare]
 
-def c05_events(ast, compare_original=False, keep=None):
-  """Run the C05 lifecycle on a TypeDeclUnit.  keep: dict that receives t1/t2/t3 texts."""
+def c05_events(ast, compare_original=False, keep=None, expected=None):
+  """Run the C05 lifecycle on a TypeDeclUnit.  keep: dict that receives t1/t2/t3 texts.
+  expected: the declarations the text of `ast` denotes where the spec says they are not `ast`
+  itself (StubGen.tla's pinned name convention, stubgen_terms.expected_read); Compare uses them."""
   boot.boot()
   from pytype.pytd import pytd_utils, visitors
   from pytype.pyi import parser
@@ -121,7 +123,7 @@ def c05_events(ast, compare_original=False, keep=None):
     evs.append(ev("Resolve", False, x=_err(e)))
   if compare_original:
     try:
-      n0, n1 = st.norm_unit(ast), st.norm_unit(a1)
+      n0, n1 = st.norm_unit(ast if expected is None else expected), st.norm_unit(a1)
       evs.append(ev("Compare", True, st.digest(n1["decls"]),
                     e=(n0["decls"] == n1["decls"]) and set(n0["imports"]) <= set(n1["imports"]),
                     x="" if n0["decls"] == n1["decls"] else "declarations differ"))
@@ -137,14 +139,14 @@ def analyze_program(src):
   return pyt.analyze(src, want_ast=True)
 
 
-def c05_case(ident, origin, ast, compare, pyi=None, want_texts=False):
+def c05_case(ident, origin, ast, compare, pyi=None, want_texts=False, expected=None):
   """The main run on `ast` plus the counterfactual runs used for attribution (see
   stubgen_terms.DEVIATIONS): for the set P of documented deviations whose trigger is present in
   the AST, one run with all of P neutralised and, if |P| > 1, one run per d in P with P - {d}
   neutralised.  Counterfactual runs never produce a verdict; TraceC05 uses them to say which
   deviations a failing main run is explained by."""
   keep = {}
-  evs = c05_events(ast, compare_original=compare, keep=keep)
+  evs = c05_events(ast, compare_original=compare, keep=keep, expected=expected)
   present = st.deviations_present(ast)
   variants = []
   if present:
@@ -163,7 +165,7 @@ def c05_case(ident, origin, ast, compare, pyi=None, want_texts=False):
          "lines": t1.count("\n") + 1,
          # io._output_ast: the emitted text is the printer's output plus a newline
          "emit_eq": True if pyi is None else (t1 + "\n" == pyi),
-         "feats": st.features(ast), "tdigest": tdigest(t1)}
+         "feats": st.features(ast), "tdigest": tdigest(t1), "cells": st.dunder_cells(ast)}
   if want_texts:
     out["texts"] = {k: v for k, v in keep.items() if k in ("t1", "t2", "t3")}
   else:
@@ -192,7 +194,11 @@ def c05_generated(item):
   try:
     loader()
     x = st.stub_ast(item["stub"])
-    return c05_case(item["id"], "stubgen", x, True, want_texts=bool(item.get("keep")))
+    exp = st.expected_read(item["stub"])
+    rec = c05_case(item["id"], "stubgen", x, True, want_texts=bool(item.get("keep")),
+                   expected=None if exp is None else st.stub_ast(exp))
+    rec["exp"] = exp is not None     # the spec states a read-back that is not the AST itself
+    return rec
   except Exception as e:  # pylint: disable=broad-except
     return {"id": item["id"], "origin": "stubgen", "skip": "harness:" + _err(e) +
             traceback.format_exc()[-600:], "events": []}
